@@ -394,7 +394,59 @@ def _eval_small(e: ast.AST, env: Dict[str, float]):
                 ast.Gt: a > b, ast.GtE: a >= b}[type(e.ops[0])]
     if isinstance(e, ast.IfExp):
         return _eval_small(e.body, env) if _eval_small(e.test, env) else _eval_small(e.orelse, env)
+    if isinstance(e, ast.UnaryOp) and isinstance(e.op, (ast.USub, ast.Not)):
+        v = _eval_small(e.operand, env)
+        return -v if isinstance(e.op, ast.USub) else (not v)
+    if isinstance(e, ast.BoolOp):
+        vals = [_eval_small(v, env) for v in e.values]
+        return all(vals) if isinstance(e.op, ast.And) else any(vals)
     raise AnalysisError(f"I5: expression `{norm(e)}` outside the enumerated idioms")
+
+
+def _exec_small(stmts, env: Dict[str, float]) -> None:
+    """Evaluate plain assignments and if / elif / else over the small integer environment;
+    a statement outside this fragment that binds a name makes that name unknown."""
+    for st in stmts:
+        if isinstance(st, ast.Assign):
+            for t in st.targets:
+                if isinstance(t, ast.Name):
+                    try:
+                        env[t.id] = _eval_small(st.value, env)
+                    except (AnalysisError, KeyError, TypeError):
+                        env.pop(t.id, None)
+                elif isinstance(t, (ast.Tuple, ast.List)) and isinstance(st.value, (ast.Tuple, ast.List)) \
+                        and len(t.elts) == len(st.value.elts):
+                    vals = []
+                    for e in st.value.elts:
+                        try:
+                            vals.append(_eval_small(e, env))
+                        except (AnalysisError, KeyError, TypeError):
+                            vals.append(None)
+                    for el, v in zip(t.elts, vals):
+                        if isinstance(el, ast.Name):
+                            if v is None:
+                                env.pop(el.id, None)
+                            else:
+                                env[el.id] = v
+                else:
+                    for y in ast.walk(t):
+                        if isinstance(y, ast.Name):
+                            env.pop(y.id, None)
+        elif isinstance(st, ast.If):
+            try:
+                cond = _eval_small(st.test, env)
+            except (AnalysisError, KeyError, TypeError):
+                raise AnalysisError(f"I5: condition `{norm(st.test)}` outside the enumerated idioms")
+            _exec_small(st.body if cond else st.orelse, env)
+        elif isinstance(st, (ast.Expr, ast.Assert, ast.Pass)):
+            continue
+        elif isinstance(st, ast.AugAssign) and isinstance(st.target, ast.Name):
+            try:
+                cur = env[st.target.id]
+                v = _eval_small(st.value, env)
+                env[st.target.id] = {ast.Add: cur + v, ast.Sub: cur - v, ast.Mult: cur * v}[type(st.op)]
+            except (AnalysisError, KeyError, TypeError):
+                env.pop(st.target.id, None)
 
 
 def i5_i6(prog: Program, chk: Check) -> None:
@@ -408,16 +460,18 @@ def i5_i6(prog: Program, chk: Check) -> None:
     u = prog.unit("system:SystemChain.get_nn_full_liouvillians")
     chk.saw(u)
     du5 = DefUse(u, CFG(u.node, exc_edges=False))
+    # the loop that builds the bond terms: the one that contains the weighted kron terms
     loops = [x for x in walk_local(u.node) if isinstance(x, ast.For)
              and isinstance(x.target, ast.Name)
-             and norm(x.iter).replace(" ", "") == "range(len(self)-1)"]
+             and any(isinstance(c, ast.Call) and (dotted(c.func) or "").split(".")[-1] == "kron"
+                     for c in ast.walk(x))]
     if len(loops) != 1:
-        raise AnalysisError("I5: the loop over the bonds (range(len(self)-1)) was not found")
-    iv = loops[0].target.id
+        raise AnalysisError("I5: the loop over the bonds was not found")
+    loop = loops[0]
+    iv = loop.target.id
     # weighted single-site terms: <weight> * kron(<site Liouvillian or identity>, ...)
-    fl = fr = None
     found = {}
-    for x in ast.walk(loops[0]):
+    for x in ast.walk(loop):
         if not (isinstance(x, ast.BinOp) and isinstance(x.op, ast.Mult)):
             continue
         for w, k in ((x.left, x.right), (x.right, x.left)):
@@ -432,24 +486,39 @@ def i5_i6(prog: Program, chk: Check) -> None:
                     side = "l" if (pos == 0 and off == iv) else \
                         ("r" if (pos == 1 and off == f"{iv}+1") else None)
                     if side:
-                        found[side] = expand(du5, nid, w)
-    fl, fr = found.get("l"), found.get("r")
-    shape_ok = fl is not None and fr is not None
+                        found[side] = (w, x)
+    shape_ok = "l" in found and "r" in found
     bad = []
+    pre = [st for st in u.node.body if st is not loop and st.lineno < loop.lineno]
     if shape_ok:
+        # finite case enumeration: chain lengths 2..7, every bond; the loop body is evaluated
+        # over the small integer environment up to the statement that uses the weights
+        use_line = min(found["l"][1].lineno, found["r"][1].lineno)
+        body = [st for st in loop.body if st.lineno < use_line]
         for n in range(2, 8):
-            for site in range(n):
-                w = 0.0
-                if site <= n - 2:
-                    w += _eval_small(fl, {iv: site, "n": n})
-                if site >= 1:
-                    w += _eval_small(fr, {iv: site - 1, "n": n})
-                if abs(w - 1.0) > 1e-12:
-                    bad.append((n, site, w))
-    chk.add("I5", u, f"weight of site i on bond i: {norm(fl) if fl is not None else '?'}; "
-            f"of site i+1: {norm(fr) if fr is not None else '?'}", shape_ok and not bad,
+            env0 = {"n": n}
+            _exec_small(pre, env0)
+            it = loop.iter
+            if not (isinstance(it, ast.Call) and dotted(it.func) == "range" and len(it.args) == 1):
+                raise AnalysisError(f"I5: bond loop `{norm(it)}` is not range(<number of bonds>)")
+            nb = _eval_small(it.args[0], env0)
+            if nb != n - 1:
+                bad.append((n, "bonds", nb))
+                continue
+            weight = {site: 0.0 for site in range(n)}
+            for b in range(n - 1):
+                env = dict(env0)
+                env[iv] = b
+                _exec_small(body, env)
+                weight[b] += _eval_small(found["l"][0], env)
+                weight[b + 1] += _eval_small(found["r"][0], env)
+            for site, wt in weight.items():
+                if abs(wt - 1.0) > 1e-12:
+                    bad.append((n, site, wt))
+    chk.add("I5", u, "total weight of every site Liouvillian over the bond terms", shape_ok and not bad,
             "weights sum to 1 for chain lengths 2..7" if shape_ok and not bad else
-            f"site weights differ from 1 (chain length, site, weight): {bad[:4]}")
+            f"site weights differ from 1 (chain length, site, weight): {bad[:4]} - e.g. in a "
+            f"two-site chain the only bond is both the first and the last one")
     # I6
     cp = prog.unit("mps_mpo:compute_tebd_propagator")
     chk.saw(cp)
